@@ -74,7 +74,7 @@ Fixpoint first_reply (acts : list action) : option rc :=
 Definition req_outcome (fixed : bool) (e : env) (r : request) (io : bool) : option rc :=
   match r with
   | RqMix idx nf => Some (match mix_precheck fixed e idx nf with Some c => c | None => ROk end)
-  | _ => match precheck fixed e r with
+  | _ => match precheck fixed e r io with
          | Some c => Some c
          | None => if negb (e_flag e) then Some RErr
                    else first_reply (linearize (eval_cond fixed e r io) (script_of fixed r))
@@ -127,7 +127,7 @@ Proof.
   - unfold del_ok. destruct fl, (forallb (fun p : Z * Z => in_range nch (snd p)) conns); reflexivity.
   - destruct fl; reflexivity.
   - (* store raw *)
-    destruct (n <=? 0) eqn:E1, (0 <? n) eqn:E2, fl, ar; cbn; try reflexivity; exfalso; lia.
+    destruct (n <=? 0) eqn:E1, (0 <? n) eqn:E2, fl, ar, io; cbn; try reflexivity; exfalso; lia.
   - (* mix *)
     unfold mix_precheck, mix_idx_ok; cbn.
     destruct fl, kd, (forallb (fun i : Z => in_range nch i && Z.odd i) idx), (nfrac =? Z.of_nat (length idx)); reflexivity.
